@@ -204,7 +204,7 @@ func oracleC02(p *plan.Plan, his []plan.Rec, res *plan.Result) {
 		case "ctl.wait_stable":
 			if r.Op.Tag == "final" {
 				if r.Err != "" {
-					viol(res, "not-stabilised", p.Variant, "%s", r.Err)
+					viol(res, "not-stabilised", p.Variant+stormTag(r.Err), "%s", r.Err)
 				} else {
 					stable = true
 				}
